@@ -34,9 +34,10 @@ IbcStep(acc, msg, ibcFail) ==
                              !.ibc = [next |-> seq + 1,
                                       fly |-> w.ibc.fly \cup {[seq |-> seq, den |-> msg.den, amt |-> msg.amt,
                                                                rcv |-> msg.rcv, ch |-> w.c.cfg.channel, snd |-> Contract]}],
-                             \* the reply handler tracks the packet (execute.rs handle_ibc_reply)
-                             !.c.pk = @ \cup {[seq |-> seq, den |-> msg.den, amt |-> msg.amt,
-                                               rcv |-> msg.rcv, status |-> "sent"]}],
+                             \* the reply handler tracks the packet (execute.rs handle_ibc_reply): INFLIGHT_PACKETS is
+                             \* keyed by the sequence number ALONE, so a record with the same number is overwritten
+                             !.c.pk = {q \in @ : q.seq # seq} \cup {[seq |-> seq, den |-> msg.den, amt |-> msg.amt,
+                                                                   rcv |-> msg.rcv, status |-> "sent"]}],
              !.nibc = @ + 1,
              !.out = Append(@, [msg EXCEPT !.k = "ibc"] @@ [seq |-> seq, cb |-> Contract, tmo |-> IbcTimeoutSecs])]
 
@@ -168,6 +169,9 @@ Exec(w, call) ==
   CASE call.m = "faucet"   -> Done([w EXCEPT !.bank = Credit(@, call.a, call.d, call.x)], << >>)
     [] call.m = "nat_fund" -> Done([w EXCEPT !.nat.bal = Add(@, call.a, call.x), !.led.honest = FALSE], << >>)
     [] call.m = "time"     -> Done([w EXCEPT !.now = IF call.t >= @ THEN call.t ELSE @], << >>)
+    \* IBC sequence numbers are per channel: after the configured channel changed, the transfers on the new
+    \* channel are numbered by that channel's own counter
+    [] call.m = "ibc_set_next" -> Done([w EXCEPT !.ibc.next = call.n], << >>)
     [] call.m = "ibc_ack"  -> IbcOutcome(w, call)
     [] call.m = "stray"    -> Stray(w, call)
     [] call.m = "hook"     -> HookCall(w, call)
